@@ -58,6 +58,9 @@ def gen_cases(tier, seed):
                 "store_dense_svecs": bool(rng.integers(2)),
                 "model": ["pair", "proj"][rng.integers(2)],
                 "mseed": int(rng.integers(10 ** 6)),
+                # a second structure solved in the same process right after the first: the same crystal with its atoms listed in another order,
+                # or the same crystal in the supercell with permuted axes (same atom count, same site symmetries, different arrangement)
+                "twin": [None, None, "order", "axes"][rng.integers(4)],
                 "_cost": nu * setup.det3(sm),
             }
             cases.append(c)
@@ -65,6 +68,25 @@ def gen_cases(tier, seed):
 
 
 def run_case(c):
+    r = _run_one(c)
+    if c.get("twin") and not r.get("skip") and not r.get("error"):
+        c2 = dict(c, mseed=c["mseed"] + 1)
+        if c["twin"] == "order":
+            c2["crystal"] = dict(c["crystal"], order="random", order_seed=c["crystal"]["order_seed"] + 7)
+        else:
+            Pm = np.array([[0, 1, 0], [0, 0, 1], [1, 0, 0]])
+            c2["smat"] = (Pm @ np.array(c["smat"]) @ Pm.T).tolist()
+        r2 = _run_one(c2)
+        r.setdefault("obs", {})["twin_" + c["twin"]] = 1
+        for v in r2.get("viol", []) or []:
+            v = dict(v, twin=c["twin"], msg="(second structure solved in the same process, twin=%s) %s" % (c["twin"], v.get("msg")))
+            r.setdefault("viol", []).append(v)
+        if r2.get("error"):
+            r["error"] = r2["error"]
+    return r
+
+
+def _run_one(c):
     from vlib.gen import models, setup
 
     try:
